@@ -236,3 +236,11 @@ def run(ctx):
     qnt1(ctx, lib, roles)
     grpq1(ctx, lib)
     lbl1(ctx, lib, ins)
+    # PRC-1/2 (shared with C02): a quantifier applied to a repeated substring binds to the whole of it
+    from .C02 import prc1, prc2
+    ctx.rule("PRC-1", "precedence table: Alternation < Concatenation <= Literal < Repetition")
+    ctx.rule("PRC-2", "an operand is parenthesised iff its precedence is lower than its parent's and it is not a single code point (a converted repetition "
+                      "`(?:ab){2}` under `?` keeps its outer group: `{2}?` would be the lazy form, not an optional)")
+    pf = prc1(ctx, lib)
+    if pf is not None:
+        prc2(ctx, lib, pf)
